@@ -49,7 +49,7 @@ def analyse(ctx, prop, name, tr, summ, mism, mon, stats):
 
 def run(ctx, prop, modules, nontrivial_keys, quick=(1500, 50), thorough=(30000, 70), extra_runs=None, secret="fake", modes=((), ()), pre_finish=None):
     ctx.extract()
-    ctx.prove(modules)
+    ctx.prove(modules, namespaces=["AsherahVerif.Props." + prop])
     if ctx.tier == "thorough":
         ctx.leanchecker(modules)
     ok = ctx.build_driver("envelope")
